@@ -80,6 +80,25 @@ def proj(c):
         return {"unavailable": type(ex).__name__}
 
 
+def transform_only(c, st, asts):
+    pi = ParsedInsn(st["name"], asts, st["behaviors"])
+    try:
+        ri = c.transform_insn(st["name"], pi)
+    except Exception as e:
+        r = exc_info(e)
+        r["stage"] = "transform"
+        return r
+    return {
+        "ok": True,
+        "rzil": list(ri.rzil),
+        "meta": [list(m) for m in ri.meta],
+        "needs_hi": [bool(x) for x in ri.needs_hi],
+        "needs_pkt": [bool(x) for x in ri.needs_pkt],
+        "getter": {k2: list(v) for k2, v in ri.getter_rzil.items()},
+        "name": ri.name,
+    }
+
+
 def run_step(st):
     op = st["op"]
     k = st.get("inst", 0)
@@ -87,6 +106,19 @@ def run_step(st):
         if op == "new":
             INST[k] = Compiler(ArchEnum.HEXAGON, CodeFormat[st.get("format", "READ_STATEMENTS")])
             return {"ok": True}
+        if op == "insn" and "insts" in st:
+            # parse once (instance-independent), transform on every listed instance
+            c0 = INST[st["insts"][0]]
+            try:
+                asts = [c0.parser.parse(b) for b in st["behaviors"]]
+            except Exception as e:
+                r = exc_info(e)
+                r["stage"] = "parse"
+                return {"ok": True, "multi": [r for _ in st["insts"]]}
+            out = []
+            for kk in st["insts"]:
+                out.append(transform_only(INST[kk], st, asts))
+            return {"ok": True, "multi": out}
         c = INST[k]
         if op == "stmt":
             return {"ok": True, "text": c.compile_c_stmt(st["code"])}
